@@ -143,7 +143,7 @@ func (w *World) injectHostileSlash(l *Link) {
 		inf = stakingtypes.Infraction_INFRACTION_DOUBLE_SIGN
 	}
 	data := ccv.NewSlashPacketData(abci.Validator{Address: addr, Power: 1 + w.Rnd.Int63n(50)}, vsc, inf)
-	l.C.CApp.ConsumerKeeper.AppendPendingPacket(l.C.Ctx(), ccv.SlashPacket, &ccv.ConsumerPacketData_SlashPacketData{SlashPacketData: data})
+	l.C.CApp.ConsumerKeeper.AppendPendingPacket(l.C.WriteCtx(), ccv.SlashPacket, &ccv.ConsumerPacketData_SlashPacketData{SlashPacketData: data})
 	if w.hostileQueued == nil {
 		w.hostileQueued = map[string]int{}
 	}
